@@ -525,6 +525,16 @@ impl<'a> Decoder<'a> {
                 }
             }
             TyKind::InferenceVar(v, _) => ast::Ty::App(format!("?{}", v.index()), vec![]),
+            // placeholder associated types and projections by trait and item NAME (ids change when
+            // items are reordered; answers are compared across reorderings)
+            TyKind::AssociatedType(id, s) => match self.program.associated_ty_data.get(id) {
+                Some(d) => ast::Ty::App(format!("({}::{})", self.trait_name(d.trait_id), d.name), self.subst_tys(s)),
+                None => ast::Ty::App(format!("{:?}", t.kind(i)), vec![]),
+            },
+            TyKind::Alias(chalk_ir::AliasTy::Projection(p)) => match self.program.associated_ty_data.get(&p.associated_ty_id) {
+                Some(d) => ast::Ty::App(format!("Alias({}::{})", self.trait_name(d.trait_id), d.name), self.subst_tys(&p.substitution)),
+                None => ast::Ty::App(format!("{:?}", t.kind(i)), vec![]),
+            },
             other => ast::Ty::App(format!("{:?}", other), vec![]),
         }
     }
